@@ -17,6 +17,19 @@ Layout
   array form the code reduces (`balanceReduce_eq_whole`), and `balance_data_only`.
 
 Core Lean only (the monoid laws are explicit hypotheses on `add`/`zero`).
+
+Reading of the property.  "The same up to floating-point summation order" is, in exact arithmetic,
+equality under commutativity and associativity of `+` — that is what is proved, for *every* table,
+chunk size `≥ 1` (and `None`), span generator meeting the contract and permutation of the results.
+Float non-associativity is bounded by the correspondence (1e-9 relative), not modelled.
+
+Not in this file: "coincides with the documented iterative correction on the dense matrix"
+(DESIGN's `balance_eq_dense_ic`).  Here every pass is shown to equal the marginal of the rows taken
+in one piece (`pipeline_reduce_eq_whole`, L0 = `wholeMarginal`); that this one-piece marginal is the
+row sum of the dense symmetric matrix and what the iteration then does with it is property C10
+(`Model/Balance.lean`, `Props/C10*.lean`), whose correspondence runs the real `balance_cooler`
+against the dense rational model; C11's correspondence shows every chunk size and schedule agrees
+with that run.
 -/
 namespace Cooler.C11
 open Cooler Cooler.Split
@@ -357,10 +370,12 @@ theorem visited_whole_nodup (n : Nat) (sp : List (Nat × Nat)) (hc : CoversOnce 
   rw [sliceOf_all _ (by simp)] at h
   exact ⟨h, h.nodup_iff.2 List.nodup_range⟩
 
-theorem visits_range_map (c j : Nat) (g : Nat → Nat × Nat) (k : Nat) (P : Nat → Prop) [DecidablePred P]
+/-- counting lemma for a chain of spans `g 0, g 1, …`: if `P m` says "offset `j` lies before the end of
+the first `m` spans" then `j` is read exactly once by the first `k` spans iff `P k` -/
+theorem visits_range_map (j : Nat) (g : Nat → Nat × Nat) (k : Nat) (P : Nat → Prop) [DecidablePred P]
     (hstep : ∀ m, contains j (g m) = true → ¬ P m ∧ P (m + 1))
     (hstep' : ∀ m, ¬ P m → P (m + 1) → contains j (g m) = true)
-    (hmono : ∀ m, P m → P (m + 1)) (h0 : ¬ P 0) (_ : c = c) :
+    (hmono : ∀ m, P m → P (m + 1)) (h0 : ¬ P 0) :
     visits ((List.range k).map g) j = if P k then 1 else 0 := by
   induction k with
   | zero => simp [visits, h0]
@@ -381,14 +396,13 @@ theorem spansC_coversOnce (nnz : Nat) {c : Nat} (hc : 1 ≤ c) : CoversOnce nnz 
   intro j hj
   rw [spansC_eq hc]
   have e : ∀ m, (m + 1) * c = m * c + c := fun m => Nat.succ_mul _ _
-  rw [visits_range_map c j (fun t => (t * c, (t + 1) * c)) (ceilDiv nnz c) (fun m => j < m * c)]
+  rw [visits_range_map j (fun t => (t * c, (t + 1) * c)) (ceilDiv nnz c) (fun m => j < m * c)]
   · have := le_ceilDiv_mul (L := nnz) hc
     rw [if_pos (by omega), if_pos (by omega)]
   · intro m h; simp only [contains, decide_eq_true_eq] at h; have := e m; omega
   · intro m h1 h2; simp only [contains, decide_eq_true_eq]; omega
   · intro m h; have := e m; omega
   · omega
-  · rfl
 
 /-- `util.partition(lo, hi, c)` meets the contract for the rows `[lo:hi]`, on a table of any size -/
 theorem partition_coversOnce (n lo hi : Nat) {c : Nat} (hc : 1 ≤ c) :
@@ -396,7 +410,7 @@ theorem partition_coversOnce (n lo hi : Nat) {c : Nat} (hc : 1 ≤ c) :
   intro j _
   rw [partition_eq]
   have e : ∀ m, (m + 1) * c = m * c + c := fun m => Nat.succ_mul _ _
-  rw [visits_range_map c j (fun t => (lo + t * c, min (lo + (t + 1) * c) hi)) (ceilDiv (hi - lo) c)
+  rw [visits_range_map j (fun t => (lo + t * c, min (lo + (t + 1) * c) hi)) (ceilDiv (hi - lo) c)
     (fun m => lo ≤ j ∧ j < min (lo + m * c) hi)]
   · have := le_ceilDiv_mul (L := hi - lo) hc
     by_cases h : lo ≤ j ∧ j < hi
@@ -406,7 +420,6 @@ theorem partition_coversOnce (n lo hi : Nat) {c : Nat} (hc : 1 ≤ c) :
   · intro m h1 h2; simp only [contains, decide_eq_true_eq]; have := e m; omega
   · intro m h; have := e m; omega
   · omega
-  · rfl
 
 /-- every value of the `chunksize` argument (`None` included) yields spans meeting the contract -/
 theorem spans_coversOnce (nnz : Nat) (cs : Option Nat) (hcs : ∀ c, cs = some c → 1 ≤ c) :
@@ -417,6 +430,11 @@ theorem spans_coversOnce (nnz : Nat) (cs : Option Nat) (hcs : ∀ c, cs = some c
     intro j hj
     simp [visits, contains, hj]
   | some c => exact ⟨_, spans_some (hcs c rfl), spansC_coversOnce nnz (hcs c rfl)⟩
+
+/-- the offsets the modelled spans read, in reading order, are `0, 1, …, nnz − 1` -/
+theorem visited_spans (nnz : Nat) {c : Nat} (hc : 1 ≤ c) : visited nnz (spansC nnz c) = List.range nnz := by
+  have := spans_cover_once (List.range nnz) hc
+  rwa [List.length_range] at this
 
 -- non-vacuity: the contract accepts the modelled spans, spans in another order, an empty span and an
 -- overshoot; it rejects a dropped tail span, an overlap and a gap
@@ -813,6 +831,17 @@ theorem balance_data_only {o : Ops K} (L : Laws o) {Out : Type} (alg : MargOracl
   rw [oracle_eq_data L n chrom px chunking₁ sched₁ h₁ hs₁,
     oracle_eq_data L n chrom px chunking₂ sched₂ h₂ hs₂]
 
+/-- the name under which DESIGN.md lists `balance_data_only` -/
+theorem balance_chunk_schedule_independent {o : Ops K} (L : Laws o) {Out : Type} (alg : MargOracle K → Out)
+    (n : Nat) (chrom : List Nat) (px : Pixels)
+    (chunking₁ chunking₂ : Nat × Nat → List (Nat × Nat))
+    (sched₁ sched₂ : List (List K) → List (List K))
+    (h₁ : ∀ rng, CoversOnce px.length (chunking₁ rng) rng.1 rng.2)
+    (h₂ : ∀ rng, CoversOnce px.length (chunking₂ rng) rng.1 rng.2)
+    (hs₁ : ∀ l, Schedule l (sched₁ l)) (hs₂ : ∀ l, Schedule l (sched₂ l)) :
+    alg (oracle o n chrom px chunking₁ sched₁) = alg (oracle o n chrom px chunking₂ sched₂) :=
+  balance_data_only L alg n chrom px chunking₁ chunking₂ sched₁ sched₂ h₁ h₂ hs₁ hs₂
+
 /-- the chunkings `balance_cooler` uses (`spans` for a whole-table pass, `partition` with the
 cis chunk size for a chromosome's rows) satisfy the hypothesis of `balance_data_only`, for every
 `chunksize ≥ 1` and for `None` -/
@@ -849,6 +878,24 @@ example : balanceReduce intOps 3 [0, 0, 1] exPx exFilters (spansC 5 2) [2, 0, 1]
     = wholeMarginal intOps 3 [0, 0, 1] exPx exFilters 0 5 :=
   balanceReduce_eq_whole intLaws 3 [0, 0, 1] exPx exFilters exFilters_local (spansC 5 2) 0 5
     (spansC_coversOnce 5 (by decide)) [2, 0, 1] (by decide)
+theorem single_coversOnce (n lo hi : Nat) : CoversOnce n [(lo, hi)] lo hi := by
+  intro j _
+  by_cases h : lo ≤ j ∧ j < hi
+  · simp [visits, contains, h]
+  · simp [visits, contains, h]
+
+-- `balance_data_only` applies to: chunks of 2 via `partition` handed back in order, against one span
+-- per request (`chunksize=None`) handed back reversed; `alg` = "read the whole-table marginal"
+example :
+    (fun orc : MargOracle Int => orc ⟨exFilters, exFilters_local⟩ (0, 5))
+        (oracle intOps 3 [0, 0, 1] exPx (fun r => partition r.1 r.2 2) id)
+      = (fun orc : MargOracle Int => orc ⟨exFilters, exFilters_local⟩ (0, 5))
+        (oracle intOps 3 [0, 0, 1] exPx (fun r => [r]) List.reverse) :=
+  balance_data_only intLaws (fun orc : MargOracle Int => orc ⟨exFilters, exFilters_local⟩ (0, 5))
+    3 [0, 0, 1] exPx (fun r => partition r.1 r.2 2) (fun r => [r]) id List.reverse
+    (fun r => partition_coversOnce _ r.1 r.2 (show 1 ≤ 2 by decide)) (fun r => single_coversOnce _ r.1 r.2)
+    (fun l => List.Perm.refl l) (fun l => List.reverse_perm l)
+
 -- a cis pass over the rows of chromosome 0 = rows [0:5) here; of chromosome 1: none
 example : chromPixelRange [0, 0, 1] exPx 0 = (0, 5) ∧ chromPixelRange [0, 0, 1] exPx 1 = (5, 5) := by
   decide
